@@ -63,6 +63,36 @@ def record_term(path, lp):
     return rec
 
 
+def functional_update(path, lp):
+    """``out.append(record.model_copy(update={field: value, ..}))``: the stores the copy amounts to, as pseudo
+    store events on the loop's record (the record itself is not touched, the values read its old fields)."""
+    from ..summ import Ev
+
+    out = []
+    for ev in path.events:
+        if ev.kind == "expr" and op(ev.a) == "call" and callee_name(ev.a) in ("append", "add") and ev.a[2]:
+            x = ev.a[2][0]
+            if op(x) == "call" and callee_name(x) == "model_copy" and op(x[1]) == "attr" and x[1][1] == lp.a:
+                upd = dict(x[3]).get("update")
+                upd = upd[4] if op(upd) == "new" and len(upd) > 4 else upd
+                if op(upd) == "dict":
+                    for k, v in upd[1]:
+                        if k is not None and is_const(k) and isinstance(k[1], str):
+                            out.append(Ev("store", ev.line, ("attr", lp.a, k[1]), v))
+    # all values of the update read the record's OLD fields: replay the list fields (which read the old
+    # canonical value) before the canonical ones
+    out.sort(key=lambda e: 0 if e.a[2].endswith("_synonyms") else 1)
+    return out
+
+
+def record_stores(path, lp, rec):
+    stores = [ev for ev in path.events if ev.kind == "store" and op(ev.a) == "attr" and ev.a[1] == rec]
+    if stores:
+        return rec, stores
+    fu = functional_update(path, lp)
+    return (lp.a, fu) if fu else (rec, [])
+
+
 def helper_call(path, lp, rec, helper: str):
     for ev in path.events:
         for t in (ev.a, ev.b):
@@ -83,7 +113,7 @@ def d1(cx: Cx, ob: Ob) -> None:
         n_update = 0
         for p in lp.body:
             rec = record_term(p, lp)
-            stores = [ev for ev in p.events if ev.kind == "store" and op(ev.a) == "attr" and ev.a[1] == rec]
+            rec, stores = record_stores(p, lp, rec)
             if not stores:
                 continue
             n_update += 1
@@ -198,7 +228,7 @@ def d2(cx: Cx, ob: Ob) -> None:
                 # a path that never computes the mapping: treat guards as unknown
                 ob.undecide(f"{fname}: a loop path does not consult {helper}")
                 continue
-            updates = any(ev.kind == "store" and op(ev.a) == "attr" and ev.a[1] == rec for ev in p.events)
+            updates = bool(record_stores(p, lp, rec)[1])
             sat = {w: True for w in _worlds()}
             for ev in p.events:
                 if ev.kind != "guard":
@@ -275,6 +305,38 @@ def d3(cx: Cx, ob: Ob) -> None:
             ok = True
         if op(g) == "bin" and g[1] == "&" and ((g[2] in keys and g[3] in vals) or (g[2] in vals and g[3] in keys)):
             ok = True
+        if not ok:
+            # the same intersection spelled with comprehensions / str() views of the strings
+            def kv(t, depth=0):
+                """'K' / 'V' if ``t`` enumerates the keys / values of the mapping (as strings), else None."""
+                if depth > 6:
+                    return None
+                if t == m or t == ("call", ("attr", m, "keys"), (), ()):
+                    return "K"
+                if t == ("call", ("attr", m, "values"), (), ()):
+                    return "V"
+                if op(t) == "new" and len(t) > 4:
+                    return kv(t[4], depth + 1)
+                if op(t) == "call" and t[1] in (("builtin", "set"), ("builtin", "frozenset"), ("builtin", "list"), ("builtin", "tuple"), ("builtin", "sorted"), ("builtin", "dict")) and len(t[2]) == 1:
+                    return kv(t[2][0], depth + 1)
+                if op(t) == "comp" and t[1] in ("set", "list", "gen") and len(t[3]) == 1 and not t[3][0][2]:
+                    v_, src, _ = t[3][0]
+                    if t[2] == v_ or t[2] == ("call", ("builtin", "str"), (v_,), ()):
+                        return kv(src, depth + 1)
+                return None
+
+            sides = None
+            if op(g) == "comp" and g[1] in ("set", "list", "gen") and len(g[3]) == 1 and len(g[3][0][2]) == 1:
+                v_, src, (cond,) = g[3][0]
+                probe = (v_, ("call", ("builtin", "str"), (v_,), ()))
+                if g[2] in probe and op(cond) == "cmp" and cond[1] == "in" and cond[2] in probe:
+                    sides = (kv(src), kv(cond[3]))
+            elif op(g) == "call" and op(g[1]) == "attr" and g[1][2] == "intersection" and g[2]:
+                sides = (kv(g[1][1]), kv(g[2][0]))
+            elif op(g) == "bin" and g[1] == "&":
+                sides = (kv(g[2]), kv(g[3]))
+            if sides is not None and set(sides) == {"K", "V"}:
+                ok = True
         if not ok:
             ob.violate(fn.qualname, where(fn, line), f"TransitiveError is raised on `{show(g)[:70]}`, not on keys(remapping) & values(remapping)", detail="condition")
         for ev in ctx.trail:
